@@ -110,7 +110,31 @@ def judge_ac(net, optname, opts):
             _cmp(vs, tab, idx, r, res, optname, toks)
     for idx, r in rc.switch_results(net, V, eff).items():
         _cmp(vs, "switch", idx, r, net.res_switch, optname, toks)
+    if vs and all(v["klass"].startswith("trafo") for v in vs) and _has_ideal_percent(net):
+        # recorded deviation C02-ideal-percent: the implementation uses 2*asin(d*st/200) where the documentation
+        # states 2*asin(st/200)*d; if the alternative formula reproduces every result the violation is attributed to it
+        rc.IDEAL_PERCENT_FORMULA = "chord"
+        try:
+            vs2 = []
+            for tab, fn in (("trafo", lambda: rc.trafo_results(net, V, eff)), ("trafo3w", lambda: rc.trafo3w_results(net, V, eff))):
+                if len(net[tab]):
+                    for idx, r in fn().items():
+                        if r is not None and r != "unsupported":
+                            _cmp(vs2, tab, idx, r, net["res_" + tab], optname, toks)
+        finally:
+            rc.IDEAL_PERCENT_FORMULA = "doc"
+        if not vs2:
+            for v in vs:
+                v["tokens"] = list(v["tokens"]) + ["explained=ideal_percent_chord_formula"]
     return vs
+
+
+def _has_ideal_percent(net):
+    for tab in ("trafo", "trafo3w"):
+        t = net[tab]
+        if len(t) and ((t.tap_changer_type == "Ideal") & (t.tap_step_percent.fillna(0) != 0) & ((t.tap_pos - t.tap_neutral).abs() > 1)).any():
+            return True
+    return False
 
 
 def judge_dc(net, optname):
